@@ -16,6 +16,9 @@
 (*  "snap"   _copy_content / gather_details: Gather copies, Mutate changes *)
 (*           the source afterwards.                                        *)
 (*  "eq"     Content.__eq__ rows;  "text" text_content/json_content rows.  *)
+(*  "dechist" HISTORIES of iter_text()/as_text() calls over two contents   *)
+(*           of one charset: StartIter, NextChunk, Abandon, DecodeAll;     *)
+(*           contents may be truncated (their decode raises).              *)
 (*                                                                         *)
 (* In each machine the MECHANISM follows the code and the MEANING is       *)
 (* written independently (by positions / history), related by invariants.  *)
@@ -31,19 +34,24 @@ CONSTANTS
     CtShape,      \* ctype: which parameter sets are enumerated (see CtParamSets)
     MaxSteps,     \* snap: number of Gather/Mutate steps
     Escaping,     \* ctype: "asRequired" (Render escapes a backslash) | "asCoded" (it does not: known finding)
-    CopyVariant   \* snap: "copy" (as required and as coded) | "lazyRef" (negative control: keeps a reference)
+    CopyVariant,  \* snap: "copy" (as required and as coded) | "lazyRef" (negative control: keeps a reference)
+    Catalogue,    \* dechist: the text contents (units, cuts, valid) two of which share a charset in a history
+    MaxHist,      \* dechist: number of calls in a history
+    DecoderScope  \* dechist: "perIteration" (as required and as coded) | "sharedCached" (negative control: one
+                  \*          decoder per charset, reset only when an iteration ran to completion)
 
 Off == "off"
-VARIABLES rd, dc, ct, sn, row, hist
-vars == <<rd, dc, ct, sn, row, hist>>
+VARIABLES rd, dc, ct, sn, row, dh, hist
+vars == <<rd, dc, ct, sn, row, dh, hist>>
 
 MinOf(a, b) == IF a < b THEN a ELSE b
 Concat(chunks) == FlattenSeq(chunks)
 Log(e) == hist' = Append(hist, e)
-OnlyRd == UNCHANGED <<dc, ct, sn, row>>
-OnlyDc == UNCHANGED <<rd, ct, sn, row>>
-OnlyCt == UNCHANGED <<rd, dc, sn, row>>
-OnlySn == UNCHANGED <<rd, dc, ct, row>>
+OnlyRd == UNCHANGED <<dc, ct, sn, row, dh>>
+OnlyDc == UNCHANGED <<rd, ct, sn, row, dh>>
+OnlyCt == UNCHANGED <<rd, dc, sn, row, dh>>
+OnlySn == UNCHANGED <<rd, dc, ct, row, dh>>
+OnlyDh == UNCHANGED <<rd, dc, ct, sn, row>>
 
 -----------------------------------------------------------------------------
 (* READ LOOP                                                                *)
@@ -232,6 +240,105 @@ DecodeWhole  == IsDecode /\ DecodeTerminal => dc.pc = "done" /\ dc.out = WholeM
 DecodeConserves == IsDecode => Concat(dc.out) \o dc.pending = SubSeq(dc.units, 1, dc.pos)
 
 -----------------------------------------------------------------------------
+(* DECODER HISTORIES: several iterations over two contents of one charset   *)
+(* Each iter_text() generator owns its decoder (content.py: the decoder is  *)
+(* made inside _iter_text).  NextChunk is one next() on a generator: it     *)
+(* feeds one chunk, or - after the last chunk - flushes (StopIteration, or  *)
+(* UnicodeDecodeError when bytes are still pending).  Abandon drops a       *)
+(* generator wherever it stands.  DecodeAll is as_text(): a fresh iteration *)
+(* run to its end.  A decode error leaves the decoder's buffer as it was.   *)
+
+IsDh == Machine = "dechist"
+NoGen == [live |-> FALSE, fed |-> 0, pos |-> 0, pending |-> <<>>, out |-> <<>>]
+Shared == DecoderScope = "sharedCached"
+
+AllC(s) == \A i \in DOMAIN s : s[i] = "C"
+\* MECHANISM: decode that notices invalid sequences (needed once foreign bytes can be pending)
+RECURSIVE TakeV(_)
+TakeV(b) ==
+    IF b = <<>> THEN [chars |-> <<>>, rest |-> <<>>, err |-> FALSE]
+    ELSE IF b[1] = "C" THEN [chars |-> <<>>, rest |-> b, err |-> TRUE]
+    ELSE LET need == Need(b[1])
+             have == MinOf(Len(b), need)
+         IN IF ~AllC(SubSeq(b, 2, have)) THEN [chars |-> <<>>, rest |-> b, err |-> TRUE]
+            ELSE IF Len(b) < need THEN [chars |-> <<>>, rest |-> b, err |-> FALSE]
+            ELSE LET r == TakeV(SubSeq(b, need + 1, Len(b)))
+                 IN [chars |-> <<SubSeq(b, 1, need)>> \o r.chars, rest |-> r.rest, err |-> r.err]
+
+\* a whole iteration: chunks i.. of content cn, starting with `pend` pending
+RECURSIVE RunAll(_, _, _, _, _)
+RunAll(cn, i, pos, pend, out) ==
+    IF i > Len(cn.cuts)
+    THEN (IF pend = <<>> THEN [ok |-> TRUE, text |-> out, pend |-> <<>>] ELSE [ok |-> FALSE, text |-> out, pend |-> pend])
+    ELSE LET t == TakeV(pend \o SubSeq(cn.units, pos + 1, pos + cn.cuts[i]))
+         IN IF t.err THEN [ok |-> FALSE, text |-> out, pend |-> pend]
+            ELSE RunAll(cn, i + 1, pos + cn.cuts[i], t.rest, out \o t.chars)
+
+InitDh == \E c1, c2 \in Catalogue :
+             dh = [cont |-> <<c1, c2>>, gen |-> <<NoGen, NoGen>>, shared |-> <<>>, results |-> <<>>, n |-> 0]
+
+Step(d) == [d EXCEPT !.n = @ + 1]
+
+\* g = content.iter_text(): nothing runs yet
+StartIter(c) ==
+    /\ OnlyDh
+    /\ IsDh /\ dh.n < MaxHist /\ ~dh.gen[c].live
+    /\ dh' = Step([dh EXCEPT !.gen[c] = [NoGen EXCEPT !.live = TRUE]])
+    /\ Log([a |-> "StartIter", c |-> c])
+
+\* next(g)
+NextChunk(c) ==
+    /\ OnlyDh
+    /\ IsDh /\ dh.n < MaxHist /\ dh.gen[c].live
+    /\ LET g    == dh.gen[c]
+           cn   == dh.cont[c]
+           pend == IF Shared THEN dh.shared ELSE g.pending
+       IN IF g.fed < Len(cn.cuts)
+          THEN LET len == cn.cuts[g.fed + 1]
+                   t   == TakeV(pend \o SubSeq(cn.units, g.pos + 1, g.pos + len))
+               IN IF t.err
+                  THEN /\ dh' = Step([dh EXCEPT !.gen[c] = NoGen, !.results = Append(@, [c |-> c, ok |-> FALSE, text |-> g.out])])
+                       /\ Log([a |-> "NextChunk", c |-> c, res |-> "raise", piece |-> <<>>])
+                  ELSE /\ dh' = Step([dh EXCEPT !.gen[c] = [g EXCEPT !.fed = @ + 1, !.pos = @ + len, !.out = @ \o t.chars,
+                                                                      !.pending = IF Shared THEN <<>> ELSE t.rest],
+                                                !.shared = IF Shared THEN t.rest ELSE @])
+                       /\ Log([a |-> "NextChunk", c |-> c, res |-> "piece", piece |-> t.chars])
+          ELSE IF pend = <<>>
+               THEN /\ dh' = Step([dh EXCEPT !.gen[c] = NoGen, !.shared = <<>>,
+                                             !.results = Append(@, [c |-> c, ok |-> TRUE, text |-> g.out])])
+                    /\ Log([a |-> "NextChunk", c |-> c, res |-> "stop", piece |-> g.out])
+               ELSE /\ dh' = Step([dh EXCEPT !.gen[c] = NoGen, !.results = Append(@, [c |-> c, ok |-> FALSE, text |-> g.out])])
+                    /\ Log([a |-> "NextChunk", c |-> c, res |-> "raise", piece |-> <<>>])
+
+\* del g / g.close() before it finished
+Abandon(c) ==
+    /\ OnlyDh
+    /\ IsDh /\ dh.n < MaxHist /\ dh.gen[c].live
+    /\ dh' = Step([dh EXCEPT !.gen[c] = NoGen])
+    /\ Log([a |-> "Abandon", c |-> c])
+
+\* content.as_text()
+DecodeAll(c) ==
+    /\ OnlyDh
+    /\ IsDh /\ dh.n < MaxHist
+    /\ LET r == RunAll(dh.cont[c], 1, 0, IF Shared THEN dh.shared ELSE <<>>, <<>>)
+       IN /\ dh' = Step([dh EXCEPT !.shared = IF Shared THEN r.pend ELSE @,
+                                   !.results = Append(@, [c |-> c, ok |-> r.ok, text |-> r.text])])
+          /\ Log([a |-> "DecodeAll", c |-> c, res |-> IF r.ok THEN "text" ELSE "raise", piece |-> r.text])
+
+DhTerminal == dh.n = MaxHist
+
+\* MEANING: every completed as_text() / full iteration of a VALID content is Decode(whole bytes of THAT content),
+\* whatever happened to other iterations before or in between
+PerIterationDecode ==
+    IsDh => \A i \in DOMAIN dh.results :
+               LET r == dh.results[i] cn == dh.cont[r.c]
+               IN cn.valid => r.ok /\ r.text = CharsM(cn.units)
+\* sanity of the catalogue: a truncated content never decodes
+TruncatedRaises ==
+    IsDh /\ ~Shared => \A i \in DOMAIN dh.results : ~dh.cont[dh.results[i].c].valid => ~dh.results[i].ok
+
+-----------------------------------------------------------------------------
 (* CONTENT TYPE RENDER / PARSE                                              *)
 (* A parameter value is a sequence of character classes; Render produces a  *)
 (* token sequence in which ; = / and space INSIDE a value are the same      *)
@@ -393,6 +500,7 @@ Init ==
     /\ IF Machine = "ctype"  THEN InitCtype  ELSE Idle(ct)
     /\ IF Machine = "snap"   THEN InitSnap   ELSE Idle(sn)
     /\ IF Machine = "eq" THEN InitEq ELSE IF Machine = "text" THEN InitText ELSE Idle(row)
+    /\ IF Machine = "dechist" THEN InitDh ELSE Idle(dh)
 
 Next ==
     \/ Create \/ Mutate \/ IterBytes \/ IterBuffered \/ Enter \/ Open \/ Seek \/ Read \/ Yield \/ Stop
@@ -400,21 +508,26 @@ Next ==
     \/ DoRender \/ DoParse
     \/ \E via \in Vias : Gather(via)
     \/ \E m \in {"append", "replace", "clear"} : MutateSrc(m)
+    \/ \E c \in {1, 2} : StartIter(c)
+    \/ \E c \in {1, 2} : NextChunk(c)
+    \/ \E c \in {1, 2} : Abandon(c)
+    \/ \E c \in {1, 2} : DecodeAll(c)
 
 Spec == Init /\ [][Next]_vars
 
 -----------------------------------------------------------------------------
 (* Export                                                                   *)
 Terminal == CASE Machine = "read" -> ReadTerminal [] Machine = "decode" -> DecodeTerminal
-              [] Machine = "ctype" -> CtypeTerminal [] Machine = "snap" -> SnapTerminal [] OTHER -> FALSE
+              [] Machine = "ctype" -> CtypeTerminal [] Machine = "snap" -> SnapTerminal [] Machine = "dechist" -> DhTerminal [] OTHER -> FALSE
 Scenario == CASE Machine = "read" -> [n |-> rd.n0, k |-> rd.k, seek |-> rd.seek, bnow |-> rd.bnow, kind |-> rd.kind,
                                       cap |-> rd.cap, sc |-> rd.sc, pos0 |-> rd.pos0]
               [] Machine = "decode" -> [units |-> dc.units, cuts |-> dc.cuts, mode |-> dc.mode]
+              [] Machine = "dechist" -> [cont |-> dh.cont]
               [] OTHER -> [m |-> Machine]
 \* behaviours: the scenario is what Init chose (those fields never change), hist the actions with their observations
 ExportC == Terminal => PrintT(<<"EXPORT", ToJson([init |-> Scenario, hist |-> hist])>>)
 \* rows (an INVARIANT is evaluated once per distinct state)
 ExportRow == PrintT(<<"EXPORT", ToJson(IF Machine = "eq" THEN [row |-> row, equal |-> EqMech(row)]
                                        ELSE [row |-> row, units |-> Encode(row.s), nbytes |-> Len(Encode(row.s))])>>)
-ViewNoHist == <<rd, dc, ct, sn, row>>
+ViewNoHist == <<rd, dc, ct, sn, row, dh>>
 =============================================================================
